@@ -1221,6 +1221,20 @@ func keyShape(v ssa.Value, isLeaf func(ssa.Value) bool, d int) string {
 		}
 		return s + ")"
 	case *ssa.Call:
+		// a repo helper with one return statement is seen through: its result in terms of its parameters
+		if cal := x.Call.StaticCallee(); cal != nil && isRepoFunc(cal) && len(cal.Blocks) > 0 && d < 8 {
+			if rets := returnsOf(cal); len(rets) == 1 && len(rets[0].Results) == 1 {
+				inner := keyShapeP(rets[0].Results[0], cal, d+1)
+				if !strings.Contains(inner, "?") {
+					for k := len(cal.Params) - 1; k >= 0; k-- {
+						if k < len(x.Call.Args) && strings.Contains(inner, fmt.Sprintf("$%d;", k)) {
+							inner = strings.ReplaceAll(inner, fmt.Sprintf("$%d;", k), keyShape(x.Call.Args[k], isLeaf, d+1))
+						}
+					}
+					return inner
+				}
+			}
+		}
 		n := calleeName(x)
 		if i := strings.LastIndex(n, "/"); i >= 0 {
 			n = n[i+1:]
@@ -1233,6 +1247,36 @@ func keyShape(v ssa.Value, isLeaf func(ssa.Value) bool, d int) string {
 			s += keyShape(a, isLeaf, d+1)
 		}
 		return s + ")"
+	}
+	return "?" + v.Name()
+}
+
+// keyShapeP: shape of v inside helper h with the helper's parameters as numbered leaves ("$0;", "$1;", …).
+func keyShapeP(v ssa.Value, h *ssa.Function, d int) string {
+	if d > 12 || v == nil {
+		return "?"
+	}
+	for k, p := range h.Params {
+		if v == ssa.Value(p) {
+			return fmt.Sprintf("$%d;", k)
+		}
+	}
+	switch x := v.(type) {
+	case *ssa.ChangeType:
+		return keyShapeP(x.X, h, d+1)
+	case *ssa.Convert:
+		return keyShapeP(x.X, h, d+1)
+	case *ssa.Const:
+		if x.Value == nil {
+			return "nil"
+		}
+		return "k" + x.Value.ExactString()
+	case *ssa.BinOp:
+		return "(" + keyShapeP(x.X, h, d+1) + x.Op.String() + keyShapeP(x.Y, h, d+1) + ")"
+	case *ssa.Call:
+		if b, ok := x.Call.Value.(*ssa.Builtin); ok && b.Name() == "append" && len(x.Call.Args) == 2 {
+			return "(" + keyShapeP(x.Call.Args[0], h, d+1) + "+" + keyShapeP(x.Call.Args[1], h, d+1) + ")"
+		}
 	}
 	return "?" + v.Name()
 }
